@@ -99,6 +99,8 @@ def findRootR (f : Rat → Option Rat) (sq rnd : Rat → Rat) (xl xr acc : Rat) 
   let hi := if xl > xr then xl else xr
   match f lo, f hi with
   | some fl, some fr =>
+    -- the C++ tests `fLeft == 0.0 || fRight == 0.0 || Sign(fLeft) == Sign(fRight)` since commit 8302e13
+    -- (the double product can underflow); in exact arithmetic this is `fl * fr ≥ 0`
     if fl * fr ≥ 0 then
       if fl = 0 then { out := .root lo, evals := [lo, hi], heads := [] }
       else if fr = 0 then { out := .root hi, evals := [lo, hi], heads := [] }
